@@ -544,20 +544,22 @@ theorem coerceCmp_ib (d : Dialect) (h : d.isPg = true) (s1 s2 : Sql) : coerceCmp
 theorem coerceCmp_bi (d : Dialect) (h : d.isPg = true) (s1 s2 : Sql) : coerceCmp d .bool .int s1 s2 = (.toInt s1, s2) := by
   simp [coerceCmp, h]
 
+def pyCmpOpt (o : CmpOp) : Option Scalar → Option Scalar → K
+  | some a, some b => pyCmp o a b
+  | _, _ => .unk
+
 theorem cmp_vals_ok (C : Cx) (o : CmpOp) {t1 t2 : Ty} {s1 s2 : Sql} {v1 v2 : Option Scalar}
     (h1 : C.ev s1 = some (encV C.d v1)) (h2 : C.ev s2 = some (encV C.d v2))
     (ht1 : ∀ x, v1 = some x → hasTy t1 x) (ht2 : ∀ x, v2 = some x → hasTy t2 x)
     (hc : sameClass (MTy.ofTy t1) (MTy.ofTy t2) = true) :
     C.evc (.cmp o (coerceCmp C.d (MTy.ofTy t1) (MTy.ofTy t2) s1 s2).1 (coerceCmp C.d (MTy.ofTy t1) (MTy.ofTy t2) s1 s2).2) =
-      some (match v1, v2 with
-        | some a, some b => pyCmp o a b
-        | _, _ => .unk) := by
+      some (pyCmpOpt o v1 v2) := by
   cases t1 <;> cases t2 <;> simp [sameClass, MTy.ofTy, MTy.isNum] at hc <;>
   rcases v1 with _ | x <;> rcases v2 with _ | y <;> (try cases x) <;> (try cases y) <;>
   (try (have hx := ht1 _ rfl; simp [hasTy] at hx)) <;> (try (have hy := ht2 _ rfl; simp [hasTy] at hy)) <;>
   cases hd : C.d.isPg <;>
   simp (disch := exact hd) only [MTy.ofTy, coerceCmp_nopg, coerceCmp_ii, coerceCmp_bb, coerceCmp_ss, coerceCmp_ib, coerceCmp_bi] <;>
-  simp [evc_cmp_opt, ev_toInt, h1, h2, cmpOpt, toIntV, encV, encS, hd, cmpVals, pyCmp, boolInt]
+  simp [evc_cmp_opt, ev_toInt, h1, h2, cmpOpt, toIntV, encV, encS, hd, cmpVals, pyCmp, pyCmpOpt, boolInt]
 
 
 /-! ### `x in (c1, …)`: `ListMonad.contains` -/
